@@ -304,7 +304,7 @@ def translate_dihedral_kernel(text):
                 raise TranslateError("type of %s" % m.group(2))
             defs[m.group(2)] = val
             order.append(m.group(2))
-            em.env[m.group(2)] = (val[0], "(k_%s b1 b2 b3 d1 d2 d3)" % m.group(2))
+            em.env[m.group(2)] = val       # inlined: generated names do not depend on the names of C locals
             continue
         m = re.match(r"^out\s*\[(.*)\]\s*=\s*(.*)$", s)
         if m:
@@ -517,11 +517,8 @@ def emit_module(name, scope, ty, vmod, dk, ak, pyd, pya, with_r):
     L.append("(* dihedralkernels.h: positions (within the quartet) of the atom pairs whose displacement is b1, b2, b3;")
     L.append("   d1 d2 d3 are the lengths the displacement kernel returns for them *)")
     L.append("Definition dih_pairs : list (nat * nat) := %s." % coq_pairs(dk["pairs"]))
-    for v in dk["order"]:
-        kind, text = dk["defs"][v][0], dk["defs"][v][1]
-        L.append("Definition k_%s (b1 b2 b3 : V) (d1 d2 d3 : %s) : %s := %s." % (v, ty, "V" if kind == "vec" else ty, text))
-    L.append("Definition dih_p1 (b1 b2 b3 : V) (d1 d2 d3 : %s) : %s := k_%s b1 b2 b3 d1 d2 d3.  (* first argument of atan2f *)" % (ty, ty, dk["result"][0]))
-    L.append("Definition dih_p2 (b1 b2 b3 : V) (d1 d2 d3 : %s) : %s := k_%s b1 b2 b3 d1 d2 d3.  (* second argument of atan2f *)" % (ty, ty, dk["result"][1]))
+    L.append("Definition dih_p1 (b1 b2 b3 : V) (d1 d2 d3 : %s) : %s := %s.  (* first argument of atan2f *)" % (ty, ty, dk["defs"][dk["result"][0]][1]))
+    L.append("Definition dih_p2 (b1 b2 b3 : V) (d1 d2 d3 : %s) : %s := %s.  (* second argument of atan2f *)" % (ty, ty, dk["defs"][dk["result"][1]][1]))
     L.append("(* anglekernels.h: cosine = ang_num / ang_den, clipped to [-1,1], then acos *)")
     L.append("Definition ang_pairs : list (nat * nat) := %s." % coq_pairs(ak["pairs"]))
     L.append("Definition ang_num (b1 b2 : V) (d1 d2 : %s) : %s := %s." % (ty, ty, ak["num"][1]))
@@ -585,3 +582,480 @@ def translate(ctx):
     text, _info = translate_sources(read)
     changed = ctx.write_gen("Gen/GeomFormulas.v", text)
     ctx.notes.setdefault("coverage_extra", {})["translator"] = "ok (%s)" % ("regenerated" if changed else "unchanged")
+
+
+# =====================================================================================
+#  correspondence / oracle
+# =====================================================================================
+RULE = ("geometry: atoms on a 2^-10 nm grid built as bonded chains (kinds random, near_collinear (sin < 1e-3), near_planar, "
+        "split = wrapped into the cell so that bonds cross faces) in no cell / cubic / orthorhombic / triclinic cells, "
+        "collinear = exactly collinear consecutive bonds; 1..40 index tuples incl. reversed tuples and a mirrored frame, every (opt, periodic) combination; a tuple-frame "
+        "is non-trivial when the exact value is not degenerate; topologies: 1..4 chains x 1..12 residues of the 20 amino "
+        "acids with real atom names, water/ligand residues in between, random atom deletions, duplicated atom names; "
+        "distinct by hash of (recipe, op)")
+TRUSTED = ["harness/impl/geom_impl.py (builds Trajectory/Topology objects, calls the public API, returns raw arrays)",
+           "harness/props/C07.py: translators (kernel statements by anchored patterns + expression parser; Python ast), "
+           "generators, exact integer oracle (Binet-Cauchy / determinant formulas, brute-force minimum image over 125 "
+           "lattice images), float64 atan2/acos of the exact integers",
+           "cross/dot3 of vectorize_sse.h and numpy.cross/sum compute the mathematical cross and dot product; "
+           "atan2f/acos/np.arctan2/np.arccos are the mathematical functions (RG.atan2, Coq acos)",
+           "minimum-image bond vectors are inputs of the model (property C05); here they are supplied by brute force"]
+ASSUMPTIONS = ["exact arithmetic in all theorems; float32 evaluation bounded by |value - exact| <= (C*2^-23 + box term) / "
+               "(sin t1 * sin t2) for dihedrals and min((C*2^-23 + box term)/sin t, sqrt(2(...))) for angles",
+               "bond lengths in periodic cases stay below 0.3 of the smallest cell width so that the minimum image is unique",
+               "Trajectory stores the cell as lengths/angles: the vectors the kernels see differ from the grid cell by float32 "
+               "rounding (box term 16*2^-23*L/|b|)"]
+
+EPS = 2.0 ** -23
+UNIT = 1024
+C_DIH = 8.0
+C_ANG = 8.0
+NAMES = ["phi", "psi", "omega", "chi1", "chi2", "chi3", "chi4", "chi5"]
+
+
+def idot(a, b):
+    return a[0] * b[0] + a[1] * b[1] + a[2] * b[2]
+
+
+def det3(a, b, c):
+    return (a[0] * (b[1] * c[2] - b[2] * c[1]) - a[1] * (b[0] * c[2] - b[2] * c[0]) + a[2] * (b[0] * c[1] - b[1] * c[0]))
+
+
+def mic_exact(r, box):
+    """minimum image of the integer vector r over the lattice spanned by the rows of box (brute force, exact).
+    Returns (vector, unique?) where unique means the runner-up is at least 2% longer."""
+    best = None
+    second = None
+    a, b, c = box
+    for i in range(-2, 3):
+        for j in range(-2, 3):
+            for k in range(-2, 3):
+                v = (r[0] + i * a[0] + j * b[0] + k * c[0], r[1] + i * a[1] + j * b[1] + k * c[1], r[2] + i * a[2] + j * b[2] + k * c[2])
+                d = idot(v, v)
+                if best is None or d < best[0]:
+                    second = best
+                    best = (d, v)
+                elif second is None or d < second[0]:
+                    second = (d, v)
+    unique = second is None or second[0] > best[0] * 1.04 + 4
+    return best[1], unique
+
+
+def make_box(rs, cell):
+    if cell == "none":
+        return None
+    L = lambda: int(rs.randint(2 * UNIT, 4 * UNIT + 1))
+    if cell == "cubic":
+        a = L()
+        return [[a, 0, 0], [0, a, 0], [0, 0, a]]
+    if cell == "ortho":
+        return [[L(), 0, 0], [0, L(), 0], [0, 0, L()]]
+    ax, by, cz = L(), L(), L()
+    bx = int(rs.randint(-int(0.45 * ax), int(0.45 * ax) + 1))
+    cx = int(rs.randint(-int(0.45 * ax), int(0.45 * ax) + 1))
+    cy = int(rs.randint(-int(0.45 * by), int(0.45 * by) + 1))
+    return [[ax, 0, 0], [bx, by, 0], [cx, cy, cz]]
+
+
+def gen_geom(gen):
+    """deterministic integer coordinates (F,n,3), integer box or None, angle triplets, dihedral quartets."""
+    rs = np.random.RandomState(gen["seed"])
+    kind, cell, n, F, m = gen["kind"], gen["cell"], gen["n"], gen["F"], gen["m"]
+    box = make_box(rs, cell)
+    lmin = min(box[0][0], box[1][1], box[2][2]) if box else 3 * UNIT
+    frames = []
+    for f in range(F):
+        if f == 1 and gen.get("mirror") and cell != "tric":
+            X = frames[0].copy()
+            X[:, 0] = -X[:, 0]
+            frames.append(X)
+            continue
+        X = np.zeros((n, 3), dtype=np.int64)
+        X[0] = rs.randint(-2 * UNIT, 2 * UNIT, size=3)
+        steps = []
+        for k in range(1, n):
+            while True:
+                length = rs.uniform(0.08, 0.28) * lmin if kind != "collinear" else rs.uniform(0.05, 0.1) * lmin
+                d = rs.randn(3)
+                step = np.round(d / np.linalg.norm(d) * length).astype(np.int64)
+                if kind == "collinear" and steps and rs.rand() < 0.8:
+                    # exactly collinear consecutive bonds (angle exactly 0 or pi): the float32 quotient can exceed 1
+                    base = steps[-1]
+                    kf = int(rs.choice([1, 2, 3, -1, -2]))
+                    if max(abs(int(v)) for v in base) * abs(kf) < 0.25 * lmin:
+                        step = base * kf
+                    else:
+                        step = base * int(np.sign(kf))
+                if kind == "near_collinear" and steps and rs.rand() < 0.7:
+                    tiny = rs.randint(-2, 3, size=3)
+                    step = np.round(steps[-1] * rs.uniform(0.6, 1.2)).astype(np.int64) * rs.choice([1, -1]) + tiny
+                if kind == "near_planar" and len(steps) >= 2 and rs.rand() < 0.7:
+                    a_, b_ = steps[-2].astype(float), steps[-1].astype(float)
+                    step = np.round(rs.uniform(-1, 1) * a_ + rs.uniform(0.3, 1) * rs.choice([1, -1]) * b_).astype(np.int64) + rs.randint(-1, 2, size=3)
+                nn = float(np.linalg.norm(step))
+                if 0.04 * lmin < nn < 0.3 * lmin:
+                    break
+            steps.append(step)
+            X[k] = X[k - 1] + step
+        if box is not None and kind == "split":
+            Bm = np.array(box, dtype=np.float64)
+            frac = X.astype(np.float64) @ np.linalg.inv(Bm)
+            sh = np.floor(frac).astype(np.int64)
+            X = X - sh @ np.array(box, dtype=np.int64)
+        frames.append(X)
+    X = np.array(frames)
+    tri, quad = [], []
+    for _ in range(m):
+        k = int(rs.randint(0, n - 2))
+        t = [k, k + 1, k + 2]
+        tri.append(t)
+        tri.append(t[::-1])
+        if n >= 4:
+            k = int(rs.randint(0, n - 3))
+            q = [k, k + 1, k + 2, k + 3]
+            quad.append(q)
+            quad.append(q[::-1])
+    if cell == "none" and n >= 4:
+        for _ in range(max(1, m // 2)):
+            tri.append([int(v) for v in rs.choice(n, 3, replace=False)])
+            quad.append([int(v) for v in rs.choice(n, 4, replace=False)])
+    return X, box, tri[:40], quad[:40]
+
+
+def build_geom_cases(ctx):
+    rng = ctx.rng
+    quick = ctx.tier == "quick"
+    cases = []
+    reps = 2 if quick else 60
+    for _ in range(reps):
+        for kind in ["random", "near_collinear", "collinear", "near_planar", "split"]:
+            for cell in ["none", "cubic", "ortho", "tric"]:
+                if kind == "split" and cell == "none":
+                    continue
+                gen = {"kind": kind, "cell": cell, "n": rng.randint(4, 14), "F": rng.randint(1, 3), "m": rng.randint(1, 8),
+                       "mirror": rng.random() < 0.6, "seed": rng.randrange(1, 2 ** 31 - 1)}
+                ops = [{"op": o, "opt": opt, "periodic": per} for o in ("angles", "dihedrals") for opt in (True, False)
+                       for per in (True, False)]
+                cases.append({"gen": gen, "ops": ops})
+    return cases
+
+
+def bond_vectors(X, box, pairs, periodic):
+    """exact integer bond vectors for a list of (i, j) atom pairs; None when the minimum image is ambiguous."""
+    out = []
+    for i, j in pairs:
+        r = tuple(int(v) for v in (X[j] - X[i]))
+        if periodic and box is not None:
+            r, uniq = mic_exact(r, box)
+            if not uniq:
+                return None
+        out.append(r)
+    return out
+
+
+def coq_vec(v):
+    return "(%s, %s, %s)" % (cz(v[0]), cz(v[1]), cz(v[2]))
+
+
+def run_geom(ctx, cases):
+    inp = {}
+    payload = []
+    data = []
+    for k, c in enumerate(cases):
+        X, box, tri, quad = gen_geom(c["gen"])
+        data.append((X, box, tri, quad))
+        inp["g%d_xyz" % k] = (X.astype(np.float64) / UNIT).astype(np.float32)
+        if box is not None:
+            inp["g%d_box" % k] = np.repeat((np.array(box, dtype=np.float64) / UNIT).astype(np.float32)[None], X.shape[0], axis=0)
+    # one impl case per (case, op kind): the index array differs between angles and dihedrals
+    entries = []
+    for k, c in enumerate(cases):
+        X, box, tri, quad = data[k]
+        for kind, idx in (("angles", tri), ("dihedrals", quad)):
+            if not idx:
+                continue
+            e = len(entries)
+            inp["g%d_xyz" % (1000 + e)] = inp["g%d_xyz" % k]
+            if box is not None:
+                inp["g%d_box" % (1000 + e)] = inp["g%d_box" % k]
+            inp["g%d_idx" % (1000 + e)] = np.array(idx, dtype=np.int64)
+            ops = [op for op in c["ops"] if op["op"] == kind]
+            entries.append((k, kind, idx, ops))
+            payload.append({"id": 1000 + e, "has_box": box is not None, "ops": ops})
+    tag = "%d_%d" % (len(cases), ctx.rng.randrange(10 ** 9))
+    ipath = os.path.join(ctx.tmp, "gin_%s.npz" % tag)
+    opath = os.path.join(ctx.tmp, "gout_%s.npz" % tag)
+    np.savez(ipath, **inp)
+    res = ctx.run_impl("geom_impl.py", {"inputs": ipath, "outputs": opath, "geom": payload, "topo": []})
+    out = dict(np.load(opath))
+    errors = res.get("errors", {})
+    notes = ctx.notes.setdefault("coverage_extra", {})
+    worst = notes.setdefault("max_error_in_units_of_bound", {})
+    excl = notes.setdefault("excluded_by_guard", {})
+    coq_dih, coq_ang = [], []
+    F32PI = float(np.float32(np.pi))
+    for e, (k, kind, idx, ops) in enumerate(entries):
+        X, box, tri, quad = data[k]
+        gen = cases[k]["gen"]
+        lmax = max(max(abs(v) for v in row) for row in box) / UNIT if box else 0.0
+        for j, op in enumerate(ops):
+            key = "g%d_o%d" % (1000 + e, j)
+            rec = {"gen": gen, "ops": [op]}
+            bucket = "%s/%s/%s/opt=%s,periodic=%s" % (kind, gen["kind"], gen["cell"], op["opt"], op["periodic"])
+            if key in errors:
+                ctx.count(rec, bucket=bucket)
+                ctx.fail("compute_%s raised on valid input: %s" % (kind, errors[key].split(":")[0]), rec, observed=errors[key],
+                         expected="a value", tags={"kind": "raises", "op": kind})
+                continue
+            val = out[key]
+            periodic = bool(op["periodic"]) and box is not None
+            failed = False
+            for f in range(X.shape[0]):
+                if failed:
+                    break
+                for ti, tup in enumerate(idx):
+                    got = float(val[f][ti])
+                    if kind == "dihedrals":
+                        prs = [(tup[0], tup[1]), (tup[1], tup[2]), (tup[2], tup[3])]
+                        bv = bond_vectors(X[f], box, prs, periodic)
+                        if bv is None:
+                            excl["ambiguous_minimum_image"] = excl.get("ambiguous_minimum_image", 0) + 1
+                            continue
+                        b1, b2, b3 = bv
+                        T = det3(b1, b2, b3)
+                        p2 = idot(b1, b2) * idot(b2, b3) - idot(b1, b3) * idot(b2, b2)
+                        B = idot(b2, b2)
+                        n1sq = idot(b1, b1) * B - idot(b1, b2) ** 2
+                        n2sq = B * idot(b3, b3) - idot(b2, b3) ** 2
+                        if len(coq_dih) < (600 if ctx.tier == "quick" else 6000) and op["opt"]:
+                            if periodic:
+                                coq_dih.append(("(false, %s)" % clist([coq_vec(b) for b in bv]), "Some (%s, %s, %s)" % (cz(T), cz(p2), cz(B))))
+                            else:
+                                coq_dih.append(("(true, %s)" % clist([coq_vec(tuple(int(v) for v in X[f][a])) for a in tup]),
+                                                "Some (%s, %s, %s)" % (cz(T), cz(p2), cz(B))))
+                        if min(idot(b1, b1), B, idot(b3, b3)) == 0 or n1sq == 0 or n2sq == 0:
+                            excl["degenerate_geometry"] = excl.get("degenerate_geometry", 0) + 1
+                            ok_range = abs(got) <= F32PI or math.isnan(got)
+                            continue
+                        s1 = math.sqrt(n1sq / (idot(b1, b1) * B))
+                        s2 = math.sqrt(n2sq / (B * idot(b3, b3)))
+                        exact = math.atan2(math.sqrt(B) * T, p2)
+                        bmin = math.sqrt(min(idot(b1, b1), B, idot(b3, b3))) / UNIT
+                        boxterm = 16 * EPS * lmax / bmin if periodic else 0.0
+                        tol = (C_DIH * EPS + boxterm) / (s1 * s2)
+                        err = abs(got - exact)
+                        err = min(err, 2 * math.pi - err)
+                        nontriv = True
+                        ctx.count({"gen": gen, "op": op, "f": f, "t": tup}, nontrivial=nontriv, bucket=bucket)
+                        if tol < 0.05:
+                            worst["dihedral"] = round(max(worst.get("dihedral", 0.0), err / tol), 3)
+                        bad = None
+                        if not (abs(got) <= F32PI):
+                            bad = "outside [-pi, pi]"
+                        elif tol < 0.5 and err > tol:
+                            bad = "differs from the IUPAC torsion of the (minimum-image) bond vectors"
+                        elif tol < 1e-3:
+                            # sign and quadrant are decided exactly by the integers T and p2 outside the guard band
+                            sphi, cphi = math.sin(exact), math.cos(exact)
+                            if abs(sphi) > 10 * tol and (got > 0) != (T > 0):
+                                bad = "has the wrong sign"
+                            if abs(cphi) > 10 * tol and (abs(got) < math.pi / 2) != (p2 > 0):
+                                bad = "is in the wrong quadrant"
+                        if bad:
+                            ctx.fail("compute_dihedrals %s" % bad, {"gen": gen, "ops": [op]},
+                                     observed={"frame": f, "tuple": tup, "value": got}, expected={"value": exact, "tol": tol},
+                                     tags={"kind": "dihedral_value", "opt": op["opt"], "periodic": op["periodic"], "cell": gen["cell"]})
+                            failed = True
+                            break
+                    else:
+                        prs = [(tup[1], tup[0]), (tup[1], tup[2])]
+                        bv = bond_vectors(X[f], box, prs, periodic)
+                        if bv is None:
+                            excl["ambiguous_minimum_image"] = excl.get("ambiguous_minimum_image", 0) + 1
+                            continue
+                        u, v = bv
+                        N, D1, D2 = idot(u, v), idot(u, u), idot(v, v)
+                        if len(coq_ang) < (600 if ctx.tier == "quick" else 6000) and op["opt"]:
+                            if periodic:
+                                coq_ang.append(("(false, %s)" % clist([coq_vec(b) for b in bv]), "Some (%s, %s, %s)" % (cz(N), cz(D1), cz(D2))))
+                            else:
+                                coq_ang.append(("(true, %s)" % clist([coq_vec(tuple(int(w) for w in X[f][a])) for a in tup]),
+                                                "Some (%s, %s, %s)" % (cz(N), cz(D1), cz(D2))))
+                        if D1 == 0 or D2 == 0:
+                            excl["degenerate_geometry"] = excl.get("degenerate_geometry", 0) + 1
+                            continue
+                        c = max(-1.0, min(1.0, N / math.sqrt(D1 * D2)))
+                        exact = math.acos(c)
+                        sn = math.sqrt(max(0.0, 1.0 - c * c))
+                        bmin = math.sqrt(min(D1, D2)) / UNIT
+                        e0 = C_ANG * EPS + (16 * EPS * lmax / bmin if periodic else 0.0)
+                        tol = min(e0 / sn if sn > 0 else 10.0, math.sqrt(2 * e0) + e0) + 2 * EPS
+                        err = abs(got - exact)
+                        ctx.count({"gen": gen, "op": op, "f": f, "t": tup}, nontrivial=True, bucket=bucket)
+                        worst["angle"] = round(max(worst.get("angle", 0.0), err / tol), 3)
+                        bad = None
+                        if not (0.0 <= got <= F32PI):
+                            bad = "outside [0, pi]"
+                        elif err > tol:
+                            bad = "differs from the angle between the (minimum-image) bond vectors at the middle atom"
+                        if bad:
+                            ctx.fail("compute_angles %s" % bad, {"gen": gen, "ops": [op]},
+                                     observed={"frame": f, "tuple": tup, "value": got}, expected={"value": exact, "tol": tol},
+                                     tags={"kind": "angle_value", "opt": op["opt"], "periodic": op["periodic"], "cell": gen["cell"]})
+                            failed = True
+                            break
+    # the Gallina observables (from the kernels' text) against the independent integer formulas
+    for nm, fn, lst in (("dihedral", "ZG.dih_case", coq_dih), ("angle", "ZG.ang_case", coq_ang)):
+        if not lst:
+            continue
+        bad, errs = ctx.coq_mismatches(["MD.Geom.Vec", "MD.Geom.Model"], ("bool * list ZV.V", "option (Z * Z * Z)"), "ZG.obs_eqb", fn, lst)
+        if errs:
+            ctx.break_("correspondence:coqc-evaluation", "\n".join(errs))
+        elif bad:
+            ctx.break_("correspondence:%s-model-vs-exact" % nm,
+                       "Gallina observables (from the kernel text) differ from the exact integer formulas, e.g. %s -> expected %s" % lst[bad[0]])
+        notes["model_evaluations_%s" % nm] = len(lst)
+
+
+# ------------------------------------------------------------------------------------------------
+#  named torsions on generated topologies
+BACKBONE = ["N", "CA", "C", "O"]
+SIDE = {"ALA": ["CB"], "ARG": ["CB", "CG", "CD", "NE", "CZ", "NH1", "NH2"], "ASN": ["CB", "CG", "OD1", "ND2"],
+        "ASP": ["CB", "CG", "OD1", "OD2"], "CYS": ["CB", "SG"], "GLN": ["CB", "CG", "CD", "OE1", "NE2"],
+        "GLU": ["CB", "CG", "CD", "OE1", "OE2"], "GLY": [], "HIS": ["CB", "CG", "ND1", "CD2", "CE1", "NE2"],
+        "ILE": ["CB", "CG1", "CG2", "CD1"], "LEU": ["CB", "CG", "CD1", "CD2"], "LYS": ["CB", "CG", "CD", "CE", "NZ"],
+        "MET": ["CB", "CG", "SD", "CE"], "PHE": ["CB", "CG", "CD1", "CD2", "CE1", "CE2", "CZ"], "PRO": ["CB", "CG", "CD"],
+        "SER": ["CB", "OG"], "THR": ["CB", "OG1", "CG2"],
+        "TRP": ["CB", "CG", "CD1", "CD2", "NE1", "CE2", "CE3", "CZ2", "CZ3", "CH2"],
+        "TYR": ["CB", "CG", "CD1", "CD2", "CE1", "CE2", "CZ", "OH"], "VAL": ["CB", "CG1", "CG2"]}
+OTHER = {"HOH": ["O", "H1", "H2"], "LIG": ["C1", "C2", "N1", "O1"], "NA": ["NA"]}
+
+
+def gen_topology(gen):
+    rs = np.random.RandomState(gen["seed"])
+    chains = []
+    for _ in range(gen["chains"]):
+        ch = []
+        for _ in range(int(rs.randint(1, gen["max_res"] + 1))):
+            if rs.rand() < gen.get("p_other", 0.12):
+                name = list(OTHER)[rs.randint(len(OTHER))]
+                atoms = list(OTHER[name])
+            else:
+                name = sorted(SIDE)[rs.randint(len(SIDE))]
+                atoms = BACKBONE + SIDE[name] + (["H", "HA"] if rs.rand() < 0.3 else [])
+            atoms = [a for a in atoms if rs.rand() >= gen.get("p_del", 0.08)]
+            if atoms and rs.rand() < gen.get("p_dup", 0.04):
+                atoms.append(atoms[rs.randint(len(atoms))])
+            if rs.rand() < 0.1:
+                rs.shuffle(atoms)
+            ch.append({"name": name, "atoms": [str(a) for a in atoms]})
+        chains.append(ch)
+    return chains
+
+
+def coq_topology(chains):
+    out = []
+    rid = 0
+    aid = 0
+    for ch in chains:
+        rs_ = []
+        for r in ch:
+            atoms = []
+            for a in r["atoms"]:
+                atoms.append("(%s, %s)" % (cstr(a), cnat(aid)))
+                aid += 1
+            rs_.append("(mkres %s %s)" % (cz(rid), clist(atoms)))
+            rid += 1
+        out.append(clist(rs_))
+    return clist(out)
+
+
+def build_topo_cases(ctx):
+    rng = ctx.rng
+    n = 200 if ctx.tier == "quick" else 5000
+    cases = []
+    for i in range(n):
+        gen = {"chains": rng.randint(1, 4), "max_res": rng.choice([2, 5, 12]), "p_del": rng.choice([0.0, 0.05, 0.15]),
+               "p_other": rng.choice([0.0, 0.12, 0.3]), "p_dup": rng.choice([0.0, 0.04]), "seed": rng.randrange(1, 2 ** 31 - 1)}
+        cases.append({"topo": gen})
+    return cases
+
+
+def run_topo(ctx, cases):
+    payload = []
+    tops = []
+    for k, c in enumerate(cases):
+        chains = gen_topology(c["topo"])
+        tops.append(chains)
+        payload.append({"id": k, "chains": chains})
+    res = ctx.run_impl("geom_impl.py", {"inputs": None, "outputs": None, "geom": [], "topo": payload})
+    errors = res.get("errors", {})
+    coqcases, meta = [], []
+    hist = ctx.notes.setdefault("coverage_extra", {}).setdefault("named_torsions_found", {})
+    for k, c in enumerate(cases):
+        rec = {"topo": c["topo"]}
+        if "t%d" % k in errors:
+            ctx.count(rec, bucket="topology")
+            ctx.fail("indices_*/compute_* raised on a valid topology: %s" % errors["t%d" % k].split(":")[0], rec,
+                     observed=errors["t%d" % k], expected="index lists", tags={"kind": "raises", "op": "named"})
+            continue
+        r = res["topo"][str(k)]
+        nres = sum(len(ch) for ch in tops[k])
+        ctx.count(rec, nontrivial=any(r["indices"][nm] for nm in NAMES), bucket="topology/%d-chains" % len(tops[k]))
+        for nm in NAMES:
+            hist[nm] = hist.get(nm, 0) + len(r["indices"][nm])
+        if not r["compute_equal"]:
+            ctx.fail("md.compute_<torsion> disagrees with indices_<torsion> + compute_dihedrals", rec, observed="indices or angles differ",
+                     expected="identical", tags={"kind": "named_compute_mismatch"})
+        exp = clist([clist([clist([cnat(a) for a in q]) for q in r["indices"][nm]]) for nm in NAMES])
+        coqcases.append((coq_topology(tops[k]), exp))
+        meta.append(k)
+    if not coqcases:
+        return
+    bad, errs = ctx.coq_mismatches(["MD.Geom.Topo"], ("topo", "list (list (list nat))"), "idx3_eqb", "named_all", coqcases, shard=100)
+    if errs:
+        ctx.break_("correspondence:coqc-evaluation", "\n".join(errs))
+        return
+    for i in bad:
+        k = meta[i]
+        ctx.fail("a named torsion (phi/psi/omega/chi1-5) does not use exactly the documented atoms of each residue", {"topo": cases[k]["topo"]},
+                 observed={nm: res["topo"][str(k)]["indices"][nm] for nm in NAMES}, expected="Gallina atom_sequence over the documented tables (coq/Geom/Topo.v)",
+                 tags={"kind": "named_indices"})
+
+
+def correspond(ctx):
+    g = build_geom_cases(ctx)
+    ctx.log("geometry cases:", len(g))
+    for s in range(0, len(g), 40):
+        run_geom(ctx, g[s:s + 40])
+    t = build_topo_cases(ctx)
+    ctx.log("topologies:", len(t))
+    for s in range(0, len(t), 500):
+        run_topo(ctx, t[s:s + 500])
+    ctx.notes.setdefault("coverage_extra", {})["bounds"] = {"C_DIH": C_DIH, "C_ANG": C_ANG, "unit": "2^-23",
+                                                            "box_term": "16*2^-23*L/|b| (periodic)"}
+
+
+def search(ctx, broken):
+    # the correspondence already compares the implementation with the exact oracle; after a broken proof or tie
+    # run one more, independent stream
+    g = build_geom_cases(ctx)
+    for s in range(0, len(g), 40):
+        run_geom(ctx, g[s:s + 40])
+    run_topo(ctx, build_topo_cases(ctx)[:200])
+
+
+def replay(ctx, rec):
+    # a replay skips the translate/prove stages: regenerate the formulas and rebuild the proof-free model files
+    try:
+        translate(ctx)
+    except Exception as e:
+        ctx.log("translator degraded:", e)
+    ok, log = ctx.make(["Geom/Model.vo", "Geom/Topo.vo"])
+    if not ok:
+        ctx.break_("replay:model-build", log)
+    c = rec["case"]
+    if "topo" in c:
+        run_topo(ctx, [c])
+    else:
+        run_geom(ctx, [c])
